@@ -30,6 +30,7 @@ class SimSocket(object):
         self.backlog = []           # listening: fds of established, not yet accepted connections
         self.blackhole = False      # packets silently dropped
         self.owner = None           # index of the simulated process that owns the descriptor
+        self.fail_next_send = False  # the connection is reset just as the next send() is issued (poll saw nothing yet)
 
     # -- calls made by the library
     def fileno(self):
@@ -77,6 +78,14 @@ class SimSocket(object):
         if self.err:
             e, self.err = self.err, 0
             raise SockError(e, 'send error')
+        if self.fail_next_send:
+            self.fail_next_send = False
+            p = self.net.sockets.get(self.peer) if self.peer is not None else None
+            if p is not None and p.state != 'closed':
+                p.err = _errno.ECONNRESET
+                p.rcv = bytearray()
+            self.out = bytearray()
+            raise SockError(_errno.ECONNRESET, 'Connection reset by peer')
         if self.state == 'connecting':
             # Linux: a non-blocking send on a socket whose connect is still in progress returns EAGAIN
             raise SockError(_errno.EAGAIN, 'Resource temporarily unavailable')
@@ -112,7 +121,7 @@ class SimSocket(object):
 
     def key(self):
         return (self.fd, self.state, self.peer, bytes(self.out), bytes(self.rcv), self.eof, self.err, self.addr,
-                tuple(self.backlog), self.blackhole, self.owner)
+                tuple(self.backlog), self.blackhole, self.owner, self.fail_next_send)
 
 
 class Net(object):
